@@ -225,7 +225,7 @@ def _eval_soft(case):
         t = core.bits2f(case['tbits'])
         line = f"c16 kind=soft dt=f64 data={','.join(map(str, case['bits']))} t={case['tbits']}"
     else:
-        x = np.array(case['data'], dtype=np.int64).reshape(case['shape'])
+        x = np.array(case['data'], dtype=object).astype(case.get('idt', 'int64')).reshape(case['shape'])
         t = int(case['t'])
         line = f"c16 kind=soft dt=i64 data={gen.enc_arr(case['data'])} t={t}"
     before = x.copy()
@@ -240,6 +240,8 @@ def _eval_soft(case):
     else:
         spec, model = np.array(core.ints(drv['spec'])), np.array(core.ints(drv['model']))
     g = np.asarray(got).ravel()
+    if case.get('idt') and np.asarray(got).dtype != np.dtype(case['idt']):
+        f.append(dict(kind='property', key='soft_threshold:dtype', detail=dict(got=str(np.asarray(got).dtype), want=case['idt'])))
     if g.shape != spec.shape or not np.array_equal(g, spec):
         bad = [int(i) for i in np.nonzero(g != spec)[0][:8]] if g.shape == spec.shape else []
         f.append(dict(kind='property', key=f'soft_threshold:{case["dt"]}',
@@ -374,6 +376,15 @@ def _rand_soft(rng):
             t = abs(rng.gauss(0, 2))
             vals = [rng.choice([rng.gauss(0, 3), t, -t, 0.0, t * (1 + 2 ** -52), -t * (1 - 2 ** -53), 1e300, -1e-300]) for _ in range(n)]
         return dict(kind='soft', dt='f64', shape=shape, bits=[core.f2bits(v) for v in vals], tbits=core.f2bits(t), gen=style)
+    if rng.random() < 0.5:
+        # every integer dtype, unsigned and narrow ones included (values and threshold representable in the dtype)
+        idt = rng.choice(['uint8', 'uint16', 'uint32', 'uint64', 'int8', 'int16', 'int32'])
+        lo_, hi_ = gen.dt_range(idt)
+        t = rng.choice([0, 1, 2, 16, min(hi_, 100)])
+        top = min(hi_, 10 ** 6)
+        vals = [rng.choice([0, t, min(top, t + 1), rng.randint(max(lo_, -40), min(hi_, 40)), rng.randint(max(lo_, -top), top), hi_,
+                            max(lo_ + 1, -t), max(lo_ + 1, -t - 1)]) for _ in range(n)]
+        return dict(kind='soft', dt='i64', idt=idt, shape=shape, data=vals, t=t, gen='int-' + idt)
     t = rng.choice([0, 1, 2, 16, 1000])
     vals = [rng.choice([0, t, -t, t + 1, -t - 1, rng.randint(-40, 40), rng.randint(-10**6, 10**6)]) for _ in range(n)]
     return dict(kind='soft', dt='i64', shape=shape, data=vals, t=t, gen='int')
